@@ -483,8 +483,12 @@ class Pre:
         out = []
         for scrut, site, pat in self.items:
             out.append(' ' * ind + 'match %s with' % scrut)
-            out.append(' ' * ind + '| none => .error (.panic "%s")' % site)
-            out.append(' ' * ind + '| some %s =>' % pat)
+            if site is None:        # a fallible call inside an expression
+                out.append(' ' * ind + '| .error err => .error err')
+                out.append(' ' * ind + '| .ok %s =>' % pat)
+            else:
+                out.append(' ' * ind + '| none => .error (.panic "%s")' % site)
+                out.append(' ' * ind + '| some %s =>' % pat)
             ind += 2
         return out + k(ind)
 
@@ -522,6 +526,7 @@ class Translator:
         self.sig = {}               # (owner, name) -> dict
         self.extra = {}             # function key -> generated loop definitions (text)
         self.calls = {}             # function key -> set of (callee key, passes own Info parameter unchanged)
+        self.text = False           # second reading: `DelegateBuilder::re` as the `String` it is (the text for regex-automata)
 
     # ---------------------------------------------------------------- checks of the declarations against the tables
     def check_tables(self):
@@ -598,6 +603,12 @@ class Translator:
             if n[0] in ('try', 'panic', 'index') or (n[0] == 'bin' and n[1] == '-') or (n[0] == 'mcall' and n[2] == 'expect') or \
                (n[0] == 'return' and n[1][0] == 'call' and n[1][1] == ['Err']):
                 found.append(n)
+            if self.text and n[0] == 'mcall' and (n[2] == 'to_str' or (n[2] == 'push' and len(n[3]) == 1 and
+                                                                        strip_ref(n[3][0])[0] == 'path' and strip_ref(n[3][0])[1][0].startswith('info'))):
+                found.append(n)         # `to_str` can panic, hence `DelegateBuilder::push(info)` too
+            if n[0] == 'mcall' and n[2] == 'push_literal' and not self.text and len(n[3]) == 1 and strip_ref(n[3][0])[0] == 'field' \
+               and strip_ref(n[3][0])[2] == 're':
+                return          # expression reading: the expression is handed over (no text is built, nothing can fail)
             if n[0] == 'mcall' and n[2] not in ('new', 'push', 'add', 'pc', 'build', 'len'):
                 for (o, nm), s in self.sig.items():
                     if nm == n[2] and o is not None and s['fallible']:
@@ -803,6 +814,21 @@ class Translator:
         _, vshape, vfields, templ = INSN_VARIANTS[v]
         if vshape != shape:
             bad('`Insn::%s` used as a %s variant' % (v, shape), line)
+        if self.text:       # only the two instructions `compile_delegate(s)` emit, with the text they carry
+            if v == 'Lit' and shape == 'tuple' and len(fields) == 1:
+                r = self.ex(fields[0], c, pre)
+                if r[1] != 'String':
+                    bad('`Insn::Lit` of a %s' % (r[1],), line)
+                return ('TInsn.lit %s' % self.arg(r), 'Insn', False)
+            if v == 'Delegate' and shape == 'struct':
+                g = {f: x for f, x, _ in fields}
+                if set(g) != {'inner', 'pattern', 'start_group', 'end_group'}:
+                    bad('`Insn::Delegate { .. }` fields', line)
+                rs = {f: self.ex(g[f], c, pre) for f in ('inner', 'pattern', 'start_group', 'end_group')}
+                if (rs['inner'][1], rs['pattern'][1], rs['start_group'][1], rs['end_group'][1]) != ('String', 'String', 'usize', 'usize'):
+                    bad('`Insn::Delegate { .. }` field types', line)
+                return ('TInsn.delegate %s %s %s' % tuple(self.arg(rs[f]) for f in ('pattern', 'start_group', 'end_group')), 'Insn', False)
+            bad('`Insn::%s` in the text reading' % v, line)
         ctor = 'Insn' + templ.split()[0]
         if shape == 'unit':
             return (ctor, 'Insn', True)
@@ -865,6 +891,10 @@ class Translator:
             if len(args) != 2:
                 bad('`compile_inner` arguments', line)
             a = self.ex(args[0], c, pre)
+            if self.text:
+                if a[1] != 'String':
+                    bad('`compile_inner` is given a %s' % a[1], line)
+                return ('compile_inner_text %s' % self.arg(a), ('result', 'String'), False)
             if a[1] != 'Exprs':
                 bad('`compile_inner` is given a %s' % a[1], line)
             return ('compile_inner %s' % self.arg(a), ('result', 'Exprs'), False)
@@ -886,7 +916,7 @@ class Translator:
             if r[1] != ty:
                 bad('argument `%s` of `%s` gets a value of type %s' % (pn, name, r[1]), line)
             texts.append(self.arg(r))
-        fname = (owner + '.' if owner else '') + name
+        fname = ((owner + ('Text' if self.text and owner == 'DelegateBuilder' else '')) + '.' if owner else '') + name
         rty = s['ret']
         if s['fallible']:
             rty = ('result', rty)
@@ -948,6 +978,10 @@ class Translator:
             a = self.ex(args[0], c, pre)
             if a[1] != 'Info':
                 bad('`DelegateBuilder::push` argument', line)
+            if self.text:       # fallible (`to_str` can panic): bound first
+                t = c.fresh()
+                pre.items.append(('%s.push %s' % (self.arg(r), self.arg(a)), None, t))
+                return (t, 'DelegateBuilder', True)
             return ('%s.push %s' % (self.arg(r), self.arg(a)), 'DelegateBuilder', False)
         if ty == 'DelegateBuilder' and name == 'build' and len(args) == 1:
             return ('%s.build' % self.arg(r), ('result', 'Insn'), True)
@@ -1074,6 +1108,12 @@ class Translator:
         """a call whose effect is on its receiver / `&mut` arguments -> (new value text, fallible, places) or None"""
         recv, name, args = e[1], e[2], e[3]
         r0 = strip_ref(recv)
+        if self.text and name == 'add' and len(args) == 1 and r0[0] == 'field' and r0[2] == 'b' and is_path(strip_ref(r0[1]), 'self') \
+           and c.selfty == 'Compiler':
+            a = self.ex(args[0], c, pre)        # the builder's program, reduced to the instructions with their texts
+            if a[1] != 'Insn':
+                bad('`add` of a %s' % (a[1],), line)
+            return ('(%s ++ [%s])' % (c.selfname, a[0]), False, [(c.selfname, 'Compiler', None, 'Compiler', c.selfname)])
         # methods of Compiler on the threaded self
         if r0[0] == 'path' and len(r0[1]) == 1 and (r0[1][0] == 'self' and c.selfty == 'Compiler' or c.vars.get(r0[1][0]) == 'Compiler' or
                                                   (c.selfty == 'Compiler' and lid(r0[1][0]) == c.selfname)):
@@ -1083,21 +1123,31 @@ class Translator:
             pl = self.set_place(r0, c, line) if not (lid(r0[1][0]) == c.selfname) else (c.selfname, 'Compiler', None, 'Compiler', c.selfname)
             a, th = self.args_for(key, args, c, pre, line)
             self.note_call(c, key, args)
-            return ('%s%s %s' % (name, ''.join(' ' + x for x in a), pl[4]), self.sig[key]['fallible'], [pl])
+            return ('%s%s%s %s' % (name, '_text' if self.text else '', ''.join(' ' + x for x in a), pl[4]), self.sig[key]['fallible'], [pl])
         if r0[0] == 'path' and len(r0[1]) == 1 and c.vars.get(r0[1][0]) == 'Handler':
             bad('call through a method on a handler', line)
         rt = self.ex(r0, c, Pre())[1] if r0[0] in ('path', 'field') else None
+        if rt == 'Info' and name == 'push_literal' and len(args) == 1 and not self.text:
+            plx = self.set_place(args[0], c, line) if strip_ref(args[0])[0] in ('path', 'field') else None
+            if plx is not None and plx[3] == 'Exprs':
+                # writing a literal's text into the delegate text: in the expression reading the expression is handed over
+                rr = self.ex(r0, c, pre)
+                return ('(to_str_push %s %s.expr)' % (plx[4], self.arg(rr)), False, [plx])
         if rt == 'Info' and ('Info', name) in self.sig and self.sig[('Info', name)]['threads']:
             key = ('Info', name)
             rr = self.ex(r0, c, pre)
             a, th = self.args_for(key, args, c, pre, line)
             self.note_call(c, key, [recv])
             return ('%s %s%s' % (name, self.arg(rr), ''.join(' ' + x for x in a)), self.sig[key]['fallible'], th)
-        if rt == 'Expr' and name == 'to_str' and len(args) == 2 and args[1][0] == 'int' and args[1][1] == 1:
+        if rt == 'Expr' and name == 'to_str' and len(args) == 2 and args[1][0] == 'int':
             pl = self.set_place(args[0], c, line)
+            rr = self.ex(r0, c, pre)
+            if self.text:
+                if pl[3] != 'String':
+                    bad('`to_str` into something that is not a `String`', line)
+                return ('to_str_text %s %s %d' % (self.arg(rr), pl[4], args[1][1]), True, [pl])
             if pl[3] != 'Exprs':
                 bad('`to_str` into something that is not the delegate text', line)
-            rr = self.ex(r0, c, pre)
             return ('(to_str_push %s %s)' % (pl[4], self.arg(rr)), False, [pl])
         if rt in ('VMBuilder', 'DelegateBuilder', 'VecInsn', 'VecUsize', 'String'):
             pl = self.set_place(r0, c, line)
@@ -1761,6 +1811,9 @@ class Translator:
         if owner in ('Compiler', 'Info') and f.selfkind is None:
             name = owner + '.' + f.name
         c.defname = f.name
+        if self.text:
+            name = ('DelegateBuilderText.' + f.name) if owner == 'DelegateBuilder' else f.name + '_text'
+            c.defname = f.name + '_text'
         if f.selfkind is not None:
             c.selfname, c.selfty = 'self', owner
             sp = '(self : %s)' % self.lty(owner)
@@ -1790,6 +1843,32 @@ class Translator:
         note = '' if len(fs) == len(STRUCTS[name]) else ' (`options : RegexOptions` is not modelled)'
         return '/-- `struct %s`%s -/\nstructure %s where\n%sderiving Repr, Inhabited\n' % (
             name, note, name, ''.join('  %s : %s\n' % (f, self.lty(t)) for f, t in fs))
+
+    def text_reading(self):
+        """the second reading of `DelegateBuilder` and `compile_delegate(s)`: `re` is the `String` it is (built by the
+        translated `Expr::to_str`), the program is reduced to the instructions these functions emit, with their texts"""
+        tt = Translator(self.toks)
+        tt.text = True
+        saved = (dict(LEAN_TY), STRUCTS['DelegateBuilder'])
+        try:
+            LEAN_TY.update({'Compiler': 'List TInsn', 'DelegateBuilder': 'DelegateBuilderText', 'Insn': 'TInsn'})
+            STRUCTS['DelegateBuilder'] = [(f, t, 'String' if f == 're' else tag) for f, t, tag in STRUCTS['DelegateBuilder']]
+            tt.load()
+            keys = [k for k in tt.funcs if k[0] == 'DelegateBuilder'] + [('Compiler', 'compile_delegates'), ('Compiler', 'compile_delegate')]
+            for k in keys:
+                if k not in tt.funcs:
+                    bad('compile.rs: `%s::%s` not found' % k)
+            out = ['/-! ## the text handed to regex-automata: `DelegateBuilder::re` read as the `String` it is -/\n',
+                   tt.structure('DelegateBuilder').replace('structure DelegateBuilder where', 'structure DelegateBuilderText where')
+                     .replace('`struct DelegateBuilder`', '`struct DelegateBuilder` (the text reading)')]
+            for k in keys:
+                t = tt.function(k)
+                out += tt.extra.get(k, []) + [t]
+            return '\n'.join(out)
+        finally:
+            LEAN_TY.clear()
+            LEAN_TY.update(saved[0])
+            STRUCTS['DelegateBuilder'] = saved[1]
 
     def run(self):
         self.check_tables()
@@ -1872,6 +1951,7 @@ class Translator:
                     break
             else:
                 bad('compile.rs: recursion among the free functions')
+        out.append(self.text_reading())
         header = ('/- generated by tools/rs2lean_compile.py from src/compile.rs and src/analyze.rs — do not edit -/\n'
                   'import FancyModel.GenCompilePrelude\nset_option linter.unusedVariables false\nnamespace Fancy.GenCompile\n'
                   'open Fancy.GenAnalyze\n\n')
